@@ -39,8 +39,16 @@
     (`_get_analyze_compat_dtype` / `_get_smallest_dtype`), `make_array_writer` (raises or not, which
     slope/inter it computes, how many `write` calls `to_fileobj` makes), `scipy.io.savemat` write sizes,
     sizes of the NIfTI extensions.
-  * `update_header()` is the identity on a harmonised image (the correspondence harmonises every image
-    before its first observation; CIFTI-2: after the first, normalising, save).
+  * `update_header()` (CIFTI-2: `update_headers()` + the normalisation of intent / pixdim / extension) is
+    modelled as a step that may change the non-consumable header bytes ONCE: the image carries the id
+    `rest` of those bytes and `pending = some r` when the affine / shape / header have been edited so that
+    harmonising would turn them into `r`; the step sets `rest := r, pending := none` (so it is idempotent
+    by construction). WHICH bytes result is external (ids supplied by the correspondence from the real
+    `update_header`).
+  * `hdr.set_slope_inter(*get_slope_inter(arr_writer))` may raise HeaderDataError inside the `try:` (slope
+    0 or infinite after the cast to the header's float32 field) — external flag `Env.slopeRaises`.
+  * compressed destinations: `gzHeader` / `gzStream` (section at the end) model the gzip member header that
+    CPython writes and the arguments nibabel's `DeterministicGzipFile` passes.
 -/
 import NibabelModel.Generated.C07
 namespace Nb.C07
@@ -139,7 +147,12 @@ structure Core where
   xflip  : Bool := true      -- `header.default_x_flip` (an attribute of the header object, not in its bytes)
   src    : Src := .array
   hdrObj : Nat
+  rest    : Nat := 0               -- id of the header bytes other than the consumables
+  pending : Option Nat := none     -- `some r`: update_header() would turn `rest` into `r`
   deriving Repr, DecidableEq, Inhabited
+
+/-- the effect of `update_header()` on the image -/
+def harmonise (k : Core) : Core := { k with rest := k.pending.getD k.rest, pending := none }
 
 structure Img where
   core    : Core
@@ -170,7 +183,7 @@ structure IoCall where
 
 /-- abstract bytes: each piece with the state it was computed from -/
 inductive Chunk where
-  | hdr (f : File) (h : Hdr) (affine : Option M4)
+  | hdr (f : File) (h : Hdr) (rest : Nat) (affine : Option M4)
   | data (f : File) (dataId code : Nat) (scaled : Bool) (slope inter : Scl)
   | mat (M mat : M4)                    -- the two variables of the `.mat` file
   | trailer (f : File)
@@ -201,6 +214,7 @@ structure Env where
   resolve : Alias → Option Nat
   writer  : Nat → WEntry
   destImage : Nat := 0
+  slopeRaises : Nat → Bool := fun _ => false   -- per out dtype code: set_slope_inter refuses the computed slope
 
 structure World where
   img     : Core
@@ -263,6 +277,7 @@ structure Ctx where
   went    : WEntry      -- writer externals for the out dtype
   scaleMe : Bool        -- slope and inter both NaN at entry
   hdrLocal : Nat        -- the local `hdr` (object id)
+  slopeBad : Bool := false   -- `hdr.set_slope_inter(computed slope, inter)` raises HeaderDataError
 
 inductive Step where
   | mkWriter                      -- make_array_writer / ArrayWriter(check_scaling=False)   may raise WriterError
@@ -300,7 +315,8 @@ def seekTell (fault : Fault) (f : File) (write0 : Bool) (w : World) : Res :=
 def exec (c : Ctx) : Step → World → Res
   | .mkWriter, w => if c.scaleMe && !c.went.wok then (some .writer, w) else (none, w)
   | .setSlopeInter, w =>
-      if c.scaleMe then
+      if c.scaleMe && c.slopeBad then (some .headerData, w)
+      else if c.scaleMe then
         (none, w.setHdr { w.img.hdr with
           slope := if c.t.hasSlope then c.went.slope else w.img.hdr.slope,
           inter := if c.t.hasInter then c.went.inter else w.img.hdr.inter })
@@ -314,7 +330,7 @@ def exec (c : Ctx) : Step → World → Res
       else (none, w)
   | .ios cs, w => ioMany c.fault cs w
   | .seekTell f w0, w => seekTell c.fault f w0 w
-  | .emitHdr f, w => (none, { w with out := .hdr f w.img.hdr w.img.affine :: w.out })
+  | .emitHdr f, w => (none, { w with out := .hdr f w.img.hdr w.img.rest w.img.affine :: w.out })
   | .emitData f, w =>
       (none, { w with out := .data f w.img.data w.img.hdr.dtype c.scaleMe
                                (if c.scaleMe then c.went.slope else none)
@@ -394,7 +410,8 @@ def interOf (t : Gen.Traits) (h : Hdr) : Scl := if t.hasInter then h.inter else 
 
 def mkCtx (t : Gen.Traits) (env : Env) (fault : Fault) (w : World) (h1 : Hdr) : Ctx :=
   { t := t, env := env, fault := fault, went := env.writer h1.dtype,
-    scaleMe := (slopeOf t h1).isNone && (interOf t h1).isNone, hdrLocal := w.img.hdrObj }
+    scaleMe := (slopeOf t h1).isNone && (interOf t h1).isNone, hdrLocal := w.img.hdrObj,
+    slopeBad := env.slopeRaises h1.dtype }
 
 /-- `try: body finally: cleanup` where the cleanup cannot raise -/
 def tryFinally (body : World → Res) (cleanup : World → World) (w : World) : Res :=
@@ -409,9 +426,11 @@ def materialize (copy : Bool) (w : World) : World :=
       | .proxy f true => if copy then none else some f
       | _ => none }
 
-/-- `AnalyzeImage.to_file_map` as it is NOW -/
-def analyzeSave (t : Gen.Traits) (env : Env) (dt : DtReq) (fault : Fault) (w0 : World) : Res :=
-  let w := materialize true w0
+/-- `self.update_header()` (analyze.py:1009, mghformat.py:551) -/
+def updateHeader (w : World) : World := { w with img := harmonise w.img }
+
+/-- everything after `self.update_header()` in `AnalyzeImage.to_file_map` as it is NOW -/
+def analyzeBody (t : Gen.Traits) (env : Env) (dt : DtReq) (fault : Fault) (w : World) : Res :=
   let h0 := w.img.hdr
   match applyOverride t dt h0 with
   | none => (some .headerData, w)
@@ -419,10 +438,14 @@ def analyzeSave (t : Gen.Traits) (env : Env) (dt : DtReq) (fault : Fault) (w0 : 
       let c := mkCtx t env fault w h1
       tryFinally (runSteps c (coreBody c)) (fun w' => w'.setHdr (restore t h0 w'.img.hdr)) (w.setHdr h1)
 
+/-- `AnalyzeImage.to_file_map` as it is NOW -/
+def analyzeSave (t : Gen.Traits) (env : Env) (dt : DtReq) (fault : Fault) (w0 : World) : Res :=
+  analyzeBody t env dt fault (updateHeader (materialize true w0))
+
 /-- ORIGINAL control flow (pinned tree): `except WriterError: restore; raise` around the writer
     construction only, restore again at the very end; nothing on any other exception -/
 def analyzeSaveOrig (t : Gen.Traits) (env : Env) (dt : DtReq) (fault : Fault) (w0 : World) : Res :=
-  let w := materialize false w0
+  let w := updateHeader (materialize false w0)
   let h0 := w.img.hdr
   match applyOverride t dt h0 with
   | none => (some .headerData, w)
@@ -517,7 +540,7 @@ def mghCtx (t : Gen.Traits) (env : Env) (fault : Fault) (w : World) : Ctx :=
 /-- `MGHImage.to_file_map` (no dtype parameter: passing one is a TypeError) -/
 def mghSave (t : Gen.Traits) (env : Env) (dt : DtReq) (fault : Fault) (w0 : World) : Res :=
   if dt ≠ .none then (some .type, w0) else
-  let w := materialize true w0
+  let w := updateHeader (materialize true w0)
   match withOpened (mghCtx t env fault w) .image (mghBody (mghCtx t env fault w)) w with
   | (none, w1) => runSteps (mghCtx t env fault w) [.bindHeader, .bindFileMap] w1
   | r => r
@@ -527,8 +550,9 @@ def mghSave (t : Gen.Traits) (env : Env) (dt : DtReq) (fault : Fault) (w0 : Worl
     `Nifti1Pair.set_data_dtype` (aliases allowed) — is saved; the CIFTI image itself is not touched and
     its file_map is never rebound.  (The normalisation of intent / pixdim / extension is idempotent and
     assumed done.) -/
-def ciftiSave (env : Env) (dt : DtReq) (fault : Fault) (w : World) : Res :=
+def ciftiSave (env : Env) (dt : DtReq) (fault : Fault) (w0 : World) : Res :=
   let t := Gen.n2single
+  let w := updateHeader w0      -- update_headers() + extension / intent / pixdim normalisation of the NIfTI header
   let h := { w.img.hdr with offset := 0, slope := none, inter := none }
   let inner0 : Core := { w.img with hdr := h, alias := none, affine := none, hdrObj := w.img.hdrObj + 1 }
   let inner : Option Core :=
@@ -581,6 +605,12 @@ def finish (img : Img) (target : Nat) (r : Res) : Outcome :=
 def save (cls : Cls) (env : Env) (req : SaveReq) (img : Img) : Outcome :=
   finish img (req.fileMap.getD img.fileMap) (saveWorld cls env req.dtype req.fault { img := img.core })
 
+/-- `img.to_filename(name)` (filebasedimages.py:287-304): `self.file_map = filespec_to_file_map(name)` is
+    executed FIRST and unconditionally, then `self.to_file_map()` — so, unlike `to_file_map(fm)`, a by-name
+    save that fails leaves the image bound to the new names (`req.fileMap` = id of that new file_map) -/
+def saveByName (cls : Cls) (env : Env) (req : SaveReq) (img : Img) : Outcome :=
+  save cls env { req with fileMap := none } { img with fileMap := req.fileMap.getD img.fileMap }
+
 def saveOrig (cls : Cls) (env : Env) (req : SaveReq) (img : Img) : Outcome :=
   finish img (req.fileMap.getD img.fileMap) (saveWorldOrig cls env req.dtype req.fault { img := img.core })
 
@@ -612,5 +642,48 @@ def step (cls : Cls) (img : Img) : Op → Option Err × Img
 def run (cls : Cls) (img : Img) : List Op → Img
   | [] => img
   | op :: ops => run cls (step cls img op).2 ops
+
+/-! ### compressed destinations: the gzip member header (RFC 1952) as CPython's `GzipFile._write_gzip_header`
+    writes it, and the arguments nibabel passes (`DeterministicGzipFile`, openers.py:45-98).
+    Bytes are `Nat`s < 256. The deflate body, CRC-32 and the file name → bytes encoding are external. -/
+
+/-- the arguments of `gzip.GzipFile.__init__` that reach the header -/
+structure GzSink where
+  nameArg  : Option (List Nat)   -- `filename=` (none: taken from the file object's `.name`)
+  objName  : List Nat            -- `.name` of the underlying file object (the path it was opened with)
+  mtimeArg : Option Nat          -- `mtime=` (none: the clock is read when the header is written)
+  level    : Nat
+  deriving Repr, DecidableEq, Inhabited
+
+/-- `os.path.basename` on bytes: what follows the last `/` (47) -/
+def basename (p : List Nat) : List Nat :=
+  p.foldl (fun acc b => if b = 47 then [] else acc ++ [b]) []
+
+/-- `if fname.endswith(b'.gz'): fname = fname[:-3]` -/
+def stripGz (n : List Nat) : List Nat :=
+  if n.length ≥ 3 ∧ n.drop (n.length - 3) = [46, 103, 122] then n.take (n.length - 3) else n
+
+def le32 (v : Nat) : List Nat := [v % 256, v / 256 % 256, v / 65536 % 256, v / 16777216 % 256]
+
+/-- `GzipFile._write_gzip_header(compresslevel)` with the wall clock reading `clock` -/
+def gzHeader (s : GzSink) (clock : Nat) : List Nat :=
+  let fname := stripGz (basename (s.nameArg.getD s.objName))
+  let xfl := if s.level = 9 then 2 else if s.level = 1 then 4 else 0
+  [31, 139, 8, if fname.isEmpty then 0 else 8] ++ le32 (s.mtimeArg.getD clock) ++ [xfl, 255] ++
+    (if fname.isEmpty then [] else fname ++ [0])
+
+/-- the whole member: header, deflate stream, CRC-32 and size of the uncompressed data -/
+def gzStream (deflate : Nat → List Nat → List Nat) (crc : List Nat → Nat) (s : GzSink) (clock : Nat)
+    (data : List Nat) : List Nat :=
+  gzHeader s clock ++ deflate s.level data ++ le32 (crc data) ++ le32 data.length
+
+/-- what `Opener(path, 'wb')` builds for a `.gz` path: `DeterministicGzipFile(path, mode, level, mtime=0)`,
+    which calls `GzipFile.__init__(filename='', …, fileobj=open(path, …), mtime=mtime)` -/
+def nibSink (path : List Nat) (level : Nat) (mtime : Nat := 0) : GzSink :=
+  { nameArg := some [], objName := path, mtimeArg := some mtime, level := level }
+
+/-- `gzip.GzipFile(path, 'wb', level)` / `gzip.open(path, 'wb', level)` — the sink nibabel does NOT use -/
+def plainSink (path : List Nat) (level : Nat) : GzSink :=
+  { nameArg := some path, objName := path, mtimeArg := none, level := level }
 
 end Nb.C07
